@@ -315,7 +315,7 @@ fn main() {
     let scratch = Scratch::new("c06");
     let (n_batches, per_batch, n_tpl) = if thorough { (40, 50, 48) } else { (8, 25, 6) };
     for b in 0..n_batches {
-        let cfg = GenCfg { n_decls: per_batch, int128: false, portable: true, ..Default::default() };
+        let cfg = GenCfg { n_decls: per_batch, int128: false, float128: false, portable: true, ..Default::default() };
         let mut r = rng.fork();
         let prog = cgen::generate(&mut r, &cfg);
         let text = prog.c_text();
